@@ -140,9 +140,11 @@ def cases(ctx, model_ok, tmp):
             refs.append(src.put({"t": t.name, "k": k, "run": rn, "n": len(refs)}, t, instrument="I", detector=k, run=rn))
         tagged_slots = set()
         for rf in refs:
-            if rf.datasetType.name == "ta" and rng.random() < 0.5 and (rf.dataId["detector"]) not in tagged_slots:
+            # datasets of the calibration type are tagged too (a TAGGED membership is independent of certification)
+            slot = (rf.datasetType.name, rf.dataId["detector"])
+            if rng.random() < 0.5 and slot not in tagged_slots:
                 src.registry.associate("tg", [rf])
-                tagged_slots.add(rf.dataId["detector"])
+                tagged_slots.add(slot)
         cal_free = {k: 0 for k in range(1, 7)}
         for rf in refs:
             if rf.datasetType.name == "tc" and rng.random() < 0.7:
@@ -153,14 +155,18 @@ def cases(ctx, model_ok, tmp):
                 cal_free[k] = e0
         src_state = observe(src)
         num = Num()
-        n_cases = rng.randint(6, 10) if not ctx.quick() else 8
-        kinds = ["empty", "again", "overlap-first", "conflict-dim", "conflict-chain", "conflict-type", "conflict-dataset", "empty"]
+        n_cases = rng.randint(7, 11) if not ctx.quick() else 9
+        kinds = ["empty", "again", "overlap-first", "conflict-dim", "conflict-chain", "conflict-type", "conflict-dataset", "conflict-uuid", "empty"]
         for ci in range(n_cases):
             case_no += 1
             kind = kinds[ci % len(kinds)]
             how = rng.choice(["import", "import", "transfer"])
             sel = [rf for rf in refs if rng.random() < 0.6] or refs[:1]
             sel_colls = [c for c in ("tg", "cal", "ch", "ch2") if rng.random() < 0.6]
+            if kind in ("conflict-chain", "conflict-dim"):
+                how = "import"  # the recorded witnesses of C19-a / C19-b always run
+                if kind == "conflict-chain" and "ch" not in sel_colls:
+                    sel_colls.append("ch")
             # a chain is exported together with its children (the documented requirement for importing it elsewhere)
             if "ch2" in sel_colls:
                 sel_colls += [c for c in ("ch", "r2") if c not in sel_colls]
@@ -172,6 +178,8 @@ def cases(ctx, model_ok, tmp):
             desc = {"source": sidx, "kind": kind, "how": how, "datasets": len(sel), "collections": sel_colls}
             exdir = os.path.join(tmp, f"ex{case_no}")
             mode = rng.choice(["copy", "hardlink", "symlink", "relsymlink"]) if how == "transfer" else "copy"  # 'direct' is refused by design
+            with_records = how == "transfer" and rng.random() < 0.5
+            desc["refs_with_datastore_records"] = with_records
 
             def apply(sel_=sel, colls_=sel_colls, tag="x"):
                 if how == "import":
@@ -184,7 +192,11 @@ def cases(ctx, model_ok, tmp):
                             ex.saveCollection(c)
                     dst.import_(directory=d, filename="export.yaml", transfer="copy")
                 else:
-                    dst.transfer_from(src, sel_, transfer=mode, register_dataset_types=True, transfer_dimensions=True)
+                    use = sel_
+                    if with_records:
+                        # refs as a quantum or get_dataset(datastore_records=True) hands them out: with datastore records attached
+                        use = [src.get_dataset(rf.id, datastore_records=True) for rf in sel_]
+                    dst.transfer_from(src, use, transfer=mode, register_dataset_types=True, transfer_dimensions=True)
 
             # ------------------------------------------------ prepare the target
             expect_refusal = None
@@ -203,6 +215,17 @@ def cases(ctx, model_ok, tmp):
                 elif kind == "conflict-type":
                     dst.registry.registerDatasetType(DatasetType(sel[0].datasetType.name, {"instrument"}, "StructuredDataDict", universe=dst.dimensions))
                     expect_refusal = "dataset type defined differently"
+                elif kind == "conflict-uuid":
+                    # the target already holds one of the UUIDs — in another run (the definition differs in one respect only)
+                    from lsst.daf.butler import DatasetRef
+
+                    dst.registry.insertDimensionData("instrument", {"name": "I", "detector_max": 10, "class_name": "src.Cls"})
+                    dst.registry.insertDimensionData("detector", *[{"instrument": "I", "id": i, "full_name": f"src-d{i}"} for i in range(1, 7)])
+                    rf = sel[0]
+                    dst.registry.registerDatasetType(rf.datasetType)
+                    dst.registry.registerRun("elsewhere")
+                    dst.registry._importDatasets([DatasetRef(rf.datasetType, rf.dataId, run="elsewhere", id=rf.id)])
+                    expect_refusal = "the same dataset id already defined in another run"
                 elif kind == "conflict-dataset":
                     dst.registry.insertDimensionData("instrument", {"name": "I", "detector_max": 10, "class_name": "src.Cls"})
                     dst.registry.insertDimensionData("detector", *[{"instrument": "I", "id": i, "full_name": f"src-d{i}"} for i in range(1, 7)])
